@@ -267,7 +267,7 @@ pub struct Ev {
 }
 
 pub const MAIN: u8 = 255;
-pub const NSLOTS: usize = 24;
+pub const NSLOTS: usize = 28;
 
 /// Faults the interpreter itself notices (identity of handed-back payloads).
 #[derive(Clone, Debug, PartialEq, Eq, Hash)]
